@@ -16,22 +16,22 @@ import (
 // Contract expression evaluation
 
 type evalEnv struct {
-	fr     *Frame
-	st     *State
-	old    *State
-	names  map[string]Value
-	lets   map[string]Expr
-	post   *postState // when evaluating a callee postcondition
-	callee bool       // names refer to a callee's parameters; do not look up caller locals
-	inOld  bool
-	spec   map[string]Value // spec-function parameters (pure evaluation)
-	preNames map[string]Value
-	letCache map[string]Value
-	qdepth   int
-	loopEntry *State // state on entry to the loop whose invariant is being evaluated
+	fr             *Frame
+	st             *State
+	old            *State
+	names          map[string]Value
+	lets           map[string]Expr
+	post           *postState // when evaluating a callee postcondition
+	callee         bool       // names refer to a callee's parameters; do not look up caller locals
+	inOld          bool
+	spec           map[string]Value // spec-function parameters (pure evaluation)
+	preNames       map[string]Value
+	letCache       map[string]Value
+	qdepth         int
+	loopEntry      *State // state on entry to the loop whose invariant is being evaluated
 	loopEntryNames map[string]Value
-	inEntry bool
-	depth  int
+	inEntry        bool
+	depth          int
 }
 
 // Extra value kinds used only in specifications
